@@ -40,5 +40,11 @@ try:
     print("setup: probe crate warm-up done", ctx.dist)
 except Exception as e:
     print("setup: probe warm-up failed:", e)
+try:
+    # the second feature set probe crates are compiled in (C03: `dynamic_load` + `ssr`, compile only)
+    probe.compile_only_probe(ctx, ctx.rng, probe.DYN_SSR_FEATURES, "setup", opts={"formatted_keys": False, "long_key": False})
+    print("setup: dynamic_load+ssr probe warm-up done")
+except Exception as e:
+    print("setup: dynamic_load+ssr probe warm-up failed:", e)
 PY
 echo setup done
